@@ -277,6 +277,20 @@ class FlowIRExperimentConfiguration:
         """
         self.log = logging.getLogger('FlowIRConf')
 
+        if platform is None and is_instance and path is not None and os.path.isdir(path):
+            # VV: An instance description records the platform it was generated for (`platforms: [default, <platform>]`,
+            # everything else is collapsed into `default`). Loading the instance without naming a platform means "the
+            # instance as it is": use its platform. Otherwise the description would be re-stored as a default-platform
+            # instance and a later load which names the original platform (elaunch --restart) would be rejected.
+            try:
+                with open(os.path.join(path, 'conf', 'flowir_instance.yaml'), 'r') as f:
+                    stored_platforms = (experiment.model.frontends.flowir.yaml_load(f) or {}).get('platforms') or []
+                stored_platforms = [p for p in stored_platforms if p != experiment.model.frontends.flowir.FlowIR.LabelDefault]
+                if len(stored_platforms) == 1:
+                    platform = stored_platforms[0]
+            except Exception:
+                pass
+
         if platform is None:
             platform = experiment.model.frontends.flowir.FlowIR.LabelDefault
 
